@@ -1019,7 +1019,7 @@ def run(ctx):
     for count, (lo, hi) in plan:
         for start in range(0, count, 40):
             check_cases(ctx, [gen_case(rng, rng.randrange(lo, hi + 1)) for _ in range(min(40, count - start))], f"seq_{lo}_{hi}")
-    plan = [(120, (10, 80)), (40, (80, 200))] if ctx.tier == "quick" else [(2500, (10, 80)), (1200, (80, 300))]
+    plan = [(120, (10, 80)), (40, (80, 200))] if ctx.tier == "quick" else [(1600, (10, 80)), (600, (80, 300))]
     for count, (lo, hi) in plan:
         for start in range(0, count, 40):
             check_cases(ctx, [gen_case(rng, rng.randrange(lo, hi + 1), "audit") for _ in range(min(40, count - start))], f"seq_audit_{lo}_{hi}")
